@@ -45,5 +45,5 @@ def load(freq, name):
     weights = pd.Series(WEIGHTS[name])
     w_freq = weights.index.values
     w_level = weights.values
-    w_level -= w_level.min()
+    w_level = w_level - w_level.min()
     return np.interp(freq, w_freq, w_level)
